@@ -17,7 +17,7 @@ const (
 type storedMessages struct {
 	logger                Logger
 	lock                  sync.RWMutex
-	lastUsed              time.Time
+	lastUsed              uint64 // GC epoch of the last message stored
 	messages              []*IncMessage
 	messageCountPerSender map[uint16]int
 }
@@ -26,7 +26,7 @@ type MessageHandler interface {
 	HandleMessage(msg *IncMessage)
 }
 
-func (sm *storedMessages) add(msg *IncMessage) {
+func (sm *storedMessages) add(msg *IncMessage, epoch uint64) {
 	sm.lock.Lock()
 	defer sm.lock.Unlock()
 
@@ -39,14 +39,13 @@ func (sm *storedMessages) add(msg *IncMessage) {
 	sm.messageCountPerSender[msg.Source]++
 
 	sm.messages = append(sm.messages, msg)
-	now := time.Now()
 
-	if now.After(sm.lastUsed) {
-		sm.lastUsed = now
+	if epoch > sm.lastUsed {
+		sm.lastUsed = epoch
 	}
 }
 
-func (sm *storedMessages) lastUse() time.Time {
+func (sm *storedMessages) lastUse() uint64 {
 	sm.lock.RLock()
 	defer sm.lock.RUnlock()
 
@@ -171,7 +170,7 @@ func (b *Box) storeOrForward(msg *IncMessage) {
 	b.markTopicForSender(msg)
 
 	messages := b.getOrCreateMessagesByTopic(msg.Topic)
-	messages.add(msg)
+	messages.add(msg, atomic.LoadUint64(&b.currentGCEpochNum))
 }
 
 func (b *Box) markTopicForSender(msg *IncMessage) {
@@ -251,7 +250,7 @@ func (b *Box) mark(now uint64, epochsAfterWhichWeGC time.Duration) []string {
 	defer b.lock.RUnlock()
 
 	for topic, messages := range b.pendingMessages {
-		if float64(messages.lastUse().Unix())+b.GCExpire.Seconds() < float64(now) {
+		if time.Duration(now-messages.lastUse()) > epochsAfterWhichWeGC {
 			topics2Delete = append(topics2Delete, topic)
 		}
 	}
